@@ -122,6 +122,11 @@ def run(pid, tier, seed, replay):
     ec.run_validate(chk, hs, "model field: spec-behaviour replay", shards=4 if quick else 12, featurize=featurize)
     ec.run_validate(chk, [scenario(rng) for _ in range(2000 if quick else 30000)], "model field: random histories",
                     shards=4 if quick else 12, featurize=featurize)
+
+    def valued(scn):
+        scn["value_scheme"] = gen.assign_values(rng, scn["classes"][0])
+        scn["steps"][0]["model_kind"] = rng.choice(MODEL_KINDS)
+    ec.nonrtc_leg(chk, rng, 250 if quick else 4000, shards=2 if quick else 8, events=EVS, tweak=valued, featurize=featurize)
     chk.coverage["rule"] = ("value schemes id/int incl 0/negative int/empty string/enum/tuple/mixed x model shapes default/attribute/"
                             "property/class attribute/falsy(__len__)/falsy(__bool__) x state_field names x stored value x start_value; "
                             "histories of events and valid/invalid writes through the setter and directly on the model")
